@@ -1,50 +1,13 @@
-//! Generic per-type checks. Every function explores, exhaustively, a bounded space of
-//! (value, environment) configurations for one type `T` against the reference model.
+//! Per-type checks, part 1 (C01 C02 C03 C06 C07). Every function explores, exhaustively, a
+//! bounded space of (value, environment) configurations for one type against the reference
+//! model. The type is reached through `&dyn TypeOps`.
 
 use crate::cx::*;
 use crate::dom::*;
 use crate::env::*;
 use crate::model::*;
-use core::marker::PhantomData;
-use epserde::deser::{self, DeserType, Deserialize, DeserializeInner, ReaderWithPos, SliceWithPos};
-use epserde::ser::{Serialize, SerializeInner, WriteNoStd, WriteWithNames, WriteWithPos, WriterWithPos};
-use epserde::traits::*;
+pub use crate::ops::*;
 use serde_json::json;
-use std::io::Cursor;
-
-pub fn err_kind(e: &deser::Error) -> String {
-    use deser::Error::*;
-    match e {
-        FileOpenError(_) => "FileOpenError".into(),
-        ReadError => "ReadError".into(),
-        EndiannessError => "EndiannessError".into(),
-        AlignmentError => "AlignmentError".into(),
-        MajorVersionMismatch(v) => format!("MajorVersionMismatch({})", v),
-        MinorVersionMismatch(v) => format!("MinorVersionMismatch({})", v),
-        UsizeSizeMismatch(v) => format!("UsizeSizeMismatch({})", v),
-        MagicCookieError(v) => format!("MagicCookieError({:#x})", v),
-        InvalidTag(v) => format!("InvalidTag({})", v),
-        WrongTypeHash { ser_type_hash, self_type_hash, .. } => format!("WrongTypeHash(ser={:#x},self={:#x})", ser_type_hash, self_type_hash),
-        WrongAlignHash { ser_align_hash, self_align_hash, .. } => format!("WrongAlignHash(ser={:#x},self={:#x})", ser_align_hash, self_align_hash),
-    }
-}
-
-/// Outcome of running a piece of the subject.
-#[derive(Clone, Debug, PartialEq, Eq)]
-pub enum Out<V> { Ok(V), Err(String), Panic(String) }
-
-impl<V> Out<V> {
-    pub fn class(&self) -> String {
-        match self {
-            Out::Ok(_) => "ok".into(),
-            Out::Err(e) => format!("err:{}", e.split('(').next().unwrap_or(e)),
-            Out::Panic(m) => format!("panic:{}", panic_class(m)),
-        }
-    }
-    pub fn describe(&self) -> String {
-        match self { Out::Ok(_) => "Ok".into(), Out::Err(e) => format!("Err({})", e), Out::Panic(m) => format!("panic: {}", m) }
-    }
-}
 
 pub fn cap_for(tier: Tier) -> usize { tier.pick(24, 200) }
 
@@ -53,410 +16,340 @@ pub fn masked_eq(a: &[u8], b: &[u8], mask: &[bool]) -> bool {
     a.len() == b.len() && a.iter().zip(b).zip(mask).all(|((x, y), m)| *m || x == y)
 }
 
-/// Recording `WriteWithNames`: forwards to a `WriterWithPos` and logs align / write_bytes.
-pub struct RecWriter<'a, W: WriteNoStd> {
-    pub inner: WriterWithPos<'a, W>,
-    /// (pos_before, max_size_of, pos_after)
-    pub aligns: Vec<(usize, usize, usize)>,
-    /// (pos, len, max_size_of, align_of, size_of)
-    pub blocks: Vec<(usize, usize, usize, usize, usize)>,
-}
-impl<'a, W: WriteNoStd> RecWriter<'a, W> {
-    pub fn new(w: &'a mut W) -> Self { RecWriter { inner: WriterWithPos::new(w), aligns: vec![], blocks: vec![] } }
-}
-impl<W: WriteNoStd> WriteNoStd for RecWriter<'_, W> {
-    fn write_all(&mut self, buf: &[u8]) -> epserde::ser::Result<()> { self.inner.write_all(buf) }
-    fn flush(&mut self) -> epserde::ser::Result<()> { self.inner.flush() }
-}
-impl<W: WriteNoStd> WriteWithPos for RecWriter<'_, W> {
-    fn pos(&self) -> usize { self.inner.pos() }
-}
-impl<W: WriteNoStd> WriteWithNames for RecWriter<'_, W> {
-    fn align<V: MaxSizeOf>(&mut self) -> epserde::ser::Result<()> {
-        let before = self.pos();
-        let r = self.inner.align::<V>();
-        let after = self.pos();
-        self.aligns.push((before, V::max_size_of(), after));
-        r
-    }
-    fn write<V: SerializeInner>(&mut self, _field_name: &str, value: &V) -> epserde::ser::Result<()> {
-        value._serialize_inner(self)
-    }
-    fn write_bytes<V: SerializeInner + ZeroCopy>(&mut self, value: &[u8]) -> epserde::ser::Result<()> {
-        self.blocks.push((self.pos(), value.len(), V::max_size_of(), core::mem::align_of::<V>(), core::mem::size_of::<V>()));
-        self.inner.write_all(value)
-    }
+pub fn vdesc(i: usize, v: &Val) -> serde_json::Value {
+    let s = format!("{:?}", v);
+    json!({"value_index": i, "value": if s.len() > 300 { format!("{}…", s.chars().take(300).collect::<String>()) } else { s }})
 }
 
-pub struct Ck<T>(PhantomData<T>);
+pub fn build(t: &dyn TypeOps, cx: &mut Cx) -> usize {
+    let (n, w, degraded) = t.build_domain(cap_for(cx.tier));
+    cx.count(&format!("domain_width_{}", w), 1);
+    if degraded { cx.count("domain_star_product", 1); }
+    n
+}
 
-impl<T> Ck<T>
-where
-    T: Dom + Serialize + Deserialize + SerializeInner + DeserializeInner + TypeHash + AlignHash,
-    for<'a> DeserType<'a, T>: EpsView,
-{
-    pub fn type_name() -> &'static str { core::any::type_name::<<T as SerializeInner>::SerType>() }
+pub fn case_hash(cx: &Cx, v: &Val) -> u64 { hash64(&[cx.type_id.as_bytes(), format!("{:?}", v).as_bytes()]) }
 
-    pub fn ser(v: &T) -> Out<(Vec<u8>, usize)> {
-        let mut buf: Vec<u8> = Vec::new();
-        match guarded(|| v.serialize(&mut buf)) {
-            Ok(Ok(n)) => Out::Ok((buf, n)),
-            Ok(Err(e)) => Out::Err(format!("{:?}", e)),
-            Err(p) => Out::Panic(p),
-        }
-    }
+// ------------------------------------------------------------------ C01
 
-    pub fn full(bytes: &[u8]) -> Out<(Val, usize)> {
-        let mut cur = Cursor::new(bytes);
-        match guarded(|| T::deserialize_full(&mut cur).map(|x| x.to_val())) {
-            Ok(Ok(v)) => Out::Ok((v, cur.position() as usize)),
-            Ok(Err(e)) => Out::Err(err_kind(&e)),
-            Err(p) => Out::Panic(p),
-        }
-    }
-
-    pub fn eps(placed: &[u8]) -> Out<(Val, Vec<Span>)> {
-        match guarded(|| T::deserialize_eps(placed).map(|x| { let mut s = vec![]; x.spans(&mut s); (x.eps_val(), s) })) {
-            Ok(Ok(v)) => Out::Ok(v),
-            Ok(Err(e)) => Out::Err(err_kind(&e)),
-            Err(p) => Out::Panic(p),
-        }
-    }
-
-    fn vdesc(i: usize, v: &T) -> serde_json::Value {
-        let s = format!("{:?}", v.to_val());
-        json!({"value_index": i, "value": if s.len() > 300 { format!("{}…", &s[..300]) } else { s }})
-    }
-
-    fn nontrivial(enc: &Encoded) -> bool { enc.bytes.len() > enc.header_len || enc.events.len() > 8 }
-
-    fn domain(cx: &mut Cx) -> Vec<T> {
-        let (vals, w, degraded) = domain::<T>(cap_for(cx.tier));
-        cx.count(&format!("domain_width_{}", w), 1);
-        if degraded { cx.count("domain_star_product", 1); }
-        vals
-    }
-
-    // ------------------------------------------------------------------ C01
-
-    /// Full-copy round trip over the complete value domain, plus the inner API at every start
-    /// offset residue 0..64.
-    pub fn c01(cx: &mut Cx) {
-        let ty = T::ty();
-        let vals = Self::domain(cx);
-        for (i, v) in vals.iter().enumerate() {
-            let want = v.to_val();
-            let enc = encode(&ty, &want, Self::type_name());
-            cx.evals += 1;
-            cx.case(hash64(&[cx.type_id.as_bytes(), format!("{:?}", want).as_bytes()]), Self::nontrivial(&enc) || true);
-            let (bytes, _) = match Self::ser(v) {
-                Out::Ok(b) => b,
-                o => { cx.outcome(&o.class()); cx.violate(&format!("ser-{}", o.class()), json!({"value": Self::vdesc(i, v), "observed": o.describe()})); continue; }
-            };
-            cx.transitions += enc.events.len() as u64;
-            let o = Self::full(&bytes);
-            cx.outcome(&format!("full-{}", o.class()));
-            match &o {
-                Out::Ok((got, _)) if *got == want => {}
-                Out::Ok((got, _)) => cx.violate("full-wrong-value", json!({"value": Self::vdesc(i, v), "expected": format!("{:?}", want), "observed": format!("{:?}", got)})),
-                o => cx.violate(&format!("full-{}", o.class()), json!({"value": Self::vdesc(i, v), "observed": o.describe()})),
-            }
-            if i < 1 { cx.sample(json!({"type": cx.type_id, "value": format!("{:?}", want), "bytes": hex(&bytes[enc.header_len.min(bytes.len())..])})); }
-        }
-        // inner API at every residue of the start offset
-        let reps = cx.tier.pick(2, 6).min(vals.len());
-        for (i, v) in vals.iter().take(reps).enumerate() {
-            let want = v.to_val();
-            for r in 0..64usize {
-                cx.evals += 1;
-                let out = guarded(|| -> Result<Val, String> {
-                    let mut buf: Vec<u8> = Vec::new();
-                    {
-                        let mut w = WriterWithPos::new(&mut buf);
-                        w.write_all(&vec![0xA5u8; r]).map_err(|e| format!("{:?}", e))?;
-                        v._serialize_inner(&mut w).map_err(|e| format!("{:?}", e))?;
-                    }
-                    let mut cur = Cursor::new(&buf[..]);
-                    let mut rd = ReaderWithPos::new(&mut cur);
-                    let mut skip = vec![0u8; r];
-                    epserde::deser::ReadNoStd::read_exact(&mut rd, &mut skip).map_err(|e| err_kind(&e))?;
-                    let got = T::_deserialize_full_inner(&mut rd).map_err(|e| err_kind(&e))?;
-                    if epserde::deser::ReadWithPos::pos(&rd) != buf.len() { return Err(format!("consumed {} of {}", epserde::deser::ReadWithPos::pos(&rd), buf.len())); }
-                    Ok(got.to_val())
-                });
-                match out {
-                    Ok(Ok(got)) if got == want => cx.outcome("inner-ok"),
-                    Ok(Ok(got)) => { cx.outcome("inner-wrong"); cx.violate("inner-full-wrong-value", json!({"value": Self::vdesc(i, v), "start_offset": r, "observed": format!("{:?}", got)})) }
-                    Ok(Err(e)) => { cx.outcome("inner-err"); cx.violate(&format!("inner-full-err:{}", e.split('(').next().unwrap()), json!({"value": Self::vdesc(i, v), "start_offset": r, "observed": e})) }
-                    Err(p) => { cx.outcome("inner-panic"); cx.violate(&format!("inner-full-panic:{}", panic_class(&p)), json!({"value": Self::vdesc(i, v), "start_offset": r, "observed": p})) }
-                }
-            }
-        }
-    }
-
-    // ------------------------------------------------------------------ C02 + C03
-
-    /// ε-copy round trip == original == full copy (C02); with `spans`, also the C03 oracle.
-    pub fn c02(cx: &mut Cx, c03: bool) {
-        let ty = T::ty();
-        let vals = Self::domain(cx);
-        let mut arena = Arena::new(1 << 16);
-        for (i, v) in vals.iter().enumerate() {
-            let want = v.to_val();
-            let enc = encode(&ty, &want, Self::type_name());
-            cx.evals += 1;
-            let nblocks = enc.events.iter().filter(|e| matches!(e, Ev::Block { borrowed: true, .. })).count();
-            cx.case(hash64(&[cx.type_id.as_bytes(), format!("{:?}", want).as_bytes()]), !c03 || nblocks > 0);
-            let (bytes, _) = match Self::ser(v) {
-                Out::Ok(b) => b,
-                o => { cx.outcome(&format!("ser-{}", o.class())); cx.violate(&format!("ser-{}", o.class()), json!({"value": Self::vdesc(i, v), "observed": o.describe()})); continue; }
-            };
-            if bytes.len() + 256 > arena.cap() { arena = Arena::new(bytes.len() * 2 + 4096); }
-            let base = arena.base();
-            let placed = arena.place(0, &bytes);
-            let o = Self::eps(placed);
-            cx.outcome(&format!("eps-{}", o.class()));
-            cx.transitions += enc.events.len() as u64;
-            let (got, spans) = match o {
-                Out::Ok(x) => x,
-                o => { cx.violate(&format!("eps-{}", o.class()), json!({"value": Self::vdesc(i, v), "observed": o.describe()})); continue; }
-            };
-            if !c03 {
-                if got != want {
-                    cx.violate("eps-wrong-value", json!({"value": Self::vdesc(i, v), "expected": format!("{:?}", want), "observed": format!("{:?}", got)}));
-                }
-                match Self::full(&bytes) {
-                    Out::Ok((f, _)) if f == got => {}
-                    o => cx.violate("eps-disagrees-with-full", json!({"value": Self::vdesc(i, v), "eps": format!("{:?}", got), "full": o.describe()})),
-                }
-                if i < 1 { cx.sample(json!({"type": cx.type_id, "value": format!("{:?}", want), "eps": format!("{:?}", got)})); }
-                continue;
-            }
-            // C03: spans against the model's borrowed blocks
-            let blocks: Vec<&Ev> = enc.events.iter().filter(|e| matches!(e, Ev::Block { borrowed: true, .. })).collect();
-            if blocks.len() != spans.len() {
-                cx.violate("span-count", json!({"value": Self::vdesc(i, v), "expected_blocks": blocks.len(), "observed_spans": spans.len()}));
-                continue;
-            }
-            for (b, s) in blocks.iter().zip(&spans) {
-                if let Ev::Block { off, len, elem_size, count, kind, .. } = b {
-                    cx.transitions += 1;
-                    let mut bad = vec![];
-                    if s.kind != *kind { bad.push("kind"); }
-                    if s.count != *count { bad.push("count"); }
-                    if s.bytes != *len { bad.push("length"); }
-                    if s.elem_size != *elem_size { bad.push("elem-size"); }
-                    if s.addr == 0 { bad.push("null"); }
-                    if s.elem_align > 0 && s.addr % s.elem_align != 0 { bad.push("misaligned"); }
-                    if *len > 0 {
-                        if s.addr != base + off { bad.push("address"); }
-                        if s.addr < base || s.addr + s.bytes > base + bytes.len() { bad.push("out-of-bounds"); }
-                    }
-                    if !bad.is_empty() {
-                        cx.violate(&format!("span-{}", bad.join("+")), json!({"value": Self::vdesc(i, v), "model_block": format!("{:?}", b), "span": format!("{:?}", s), "base": base}));
-                    }
-                }
-            }
-            if i < 1 && !spans.is_empty() { cx.sample(json!({"type": cx.type_id, "value": format!("{:?}", want), "spans": spans.iter().map(|s| json!({"off": s.addr.wrapping_sub(base), "bytes": s.bytes, "count": s.count})).collect::<Vec<_>>() })); }
-            // allocation independence under scaling of the borrowed payload
-            if nblocks > 0 && i < cx.tier.pick(6, 40) {
-                let mut seen: Option<AllocSnap> = None;
-                for k in [1usize, 8, 64] {
-                    let sv = v.scale(k);
-                    let sb = match Self::ser(&sv) { Out::Ok((b, _)) => b, _ => break };
-                    let mut big = Arena::new(sb.len() + 4096);
-                    let placed = big.place(0, &sb);
-                    cx.evals += 1;
-                    let d = guarded(|| {
-                        let a = alloc_snap();
-                        let r = T::deserialize_eps(placed);
-                        let d = alloc_delta(a);
-                        let okv = r.as_ref().map(|x| x.eps_val()).ok();
-                        drop(r);
-                        (d, okv)
-                    });
-                    match d {
-                        Ok((d, Some(val))) => {
-                            if val != sv.to_val() { cx.violate("scaled-eps-wrong-value", json!({"value": Self::vdesc(i, v), "scale": k})); }
-                            let d = AllocSnap { frees: 0, ..d };
-                            match seen {
-                                None => seen = Some(d),
-                                Some(s0) if s0 == d => {}
-                                Some(s0) => { cx.violate("alloc-depends-on-borrowed-length", json!({"value": Self::vdesc(i, v), "scale": k, "alloc_k1": format!("{:?}", s0), "alloc_k": format!("{:?}", d)})); break; }
-                            }
-                        }
-                        _ => break, // failures are C02's business
-                    }
-                }
-            }
-        }
-    }
-
-    // ------------------------------------------------------------------ C06
-
-    /// Bytes == reference encoder, header hash words == model recipe.
-    pub fn c06(cx: &mut Cx) {
-        let ty = T::ty();
-        let vals = Self::domain(cx);
-        // real hashes through the real trait impls
-        use core::hash::Hasher;
-        let mut th = xxhash_rust::xxh3::Xxh3::new();
-        <T as TypeHash>::type_hash(&mut th);
-        let mut ah = xxhash_rust::xxh3::Xxh3::new();
-        <T as AlignHash>::align_hash(&mut ah, &mut 0);
-        let (rth, rah) = (th.finish(), ah.finish());
+/// Full-copy round trip over the complete value domain, plus the inner API at every start
+/// offset residue 0..64.
+pub fn c01(t: &dyn TypeOps, cx: &mut Cx) {
+    let ty = t.ty();
+    let n = build(t, cx);
+    for i in 0..n {
+        let want = t.val(i);
+        let enc = encode(&ty, &want, t.type_name());
         cx.evals += 1;
-        if rth != type_hash(&ty) {
-            cx.violate("type-hash-differs-from-recipe", json!({"real": format!("{:#x}", rth), "model": format!("{:#x}", type_hash(&ty)), "ty": ty.show()}));
+        cx.case(case_hash(cx, &want), true);
+        let (bytes, _) = match t.ser(i) {
+            Out::Ok(b) => b,
+            o => { cx.outcome(&o.class()); cx.violate(&format!("ser-{}", o.class()), json!({"value": vdesc(i, &want), "observed": o.describe()})); continue; }
+        };
+        cx.transitions += enc.events.len() as u64;
+        let o = t.full(&bytes);
+        cx.outcome(&format!("full-{}", o.class()));
+        match &o {
+            Out::Ok((got, _)) if *got == want => {}
+            Out::Ok((got, _)) => cx.violate("full-wrong-value", json!({"value": vdesc(i, &want), "expected": format!("{:?}", want), "observed": format!("{:?}", got)})),
+            o => cx.violate(&format!("full-{}", o.class()), json!({"value": vdesc(i, &want), "observed": o.describe()})),
         }
-        if rah != align_hash(&ty) {
-            cx.violate("align-hash-differs-from-recipe", json!({"real": format!("{:#x}", rah), "model": format!("{:#x}", align_hash(&ty)), "ty": ty.show()}));
-        }
-        cx.notes.push(format!("HASH {} {:016x} {:016x}", cx.type_id, rth, rah));
-        for (i, v) in vals.iter().enumerate() {
-            let want = v.to_val();
-            let enc = encode(&ty, &want, Self::type_name());
+        if i < 1 { cx.sample(json!({"type": cx.type_id, "value": format!("{:?}", want), "bytes": hex(&bytes[enc.header_len.min(bytes.len())..])})); }
+    }
+    let reps = cx.tier.pick(2, 6).min(n);
+    for i in 0..reps {
+        let want = t.val(i);
+        for r in 0..64usize {
             cx.evals += 1;
-            cx.case(hash64(&[cx.type_id.as_bytes(), format!("{:?}", want).as_bytes()]), true);
-            let (bytes, _) = match Self::ser(v) {
-                Out::Ok(b) => b,
-                o => { cx.outcome(&format!("ser-{}", o.class())); cx.violate(&format!("ser-{}", o.class()), json!({"value": Self::vdesc(i, v), "observed": o.describe()})); continue; }
+            let s = match t.inner_ser(i, r) {
+                Out::Ok(s) => s,
+                o => { cx.outcome("inner-ser-fail"); cx.violate(&format!("inner-ser-{}", o.class()), json!({"value": vdesc(i, &want), "start_offset": r, "observed": o.describe()})); continue; }
             };
-            cx.transitions += enc.events.len() as u64;
-            if masked_eq(&bytes, &enc.bytes, &enc.mask) {
-                cx.outcome("bytes-equal");
-            } else {
-                cx.outcome("bytes-differ");
-                let first = bytes.iter().zip(&enc.bytes).zip(&enc.mask).position(|((a, b), m)| !*m && a != b).unwrap_or(bytes.len().min(enc.bytes.len()));
-                let region = if first < 8 { "magic" } else if first < 12 { "version" } else if first < 13 { "usize-size" } else if first < 21 { "type-hash" } else if first < 29 { "align-hash" } else if first < enc.header_len { "type-name" } else { "body" };
-                cx.violate(&format!("bytes-differ-in-{}", region), json!({"value": Self::vdesc(i, v), "first_diff": first, "impl_len": bytes.len(), "model_len": enc.bytes.len(),
-                    "impl": hex(&bytes[enc.header_len.min(bytes.len())..]), "model": hex(&enc.bytes[enc.header_len..])}));
+            match t.inner_full(&s.bytes, r) {
+                Out::Ok((got, pos)) if got == want && pos == s.bytes.len() => cx.outcome("inner-ok"),
+                Out::Ok((got, pos)) if got == want => { cx.outcome("inner-count"); cx.violate("inner-full-consumes-wrong-count", json!({"value": vdesc(i, &want), "start_offset": r, "consumed": pos, "written": s.bytes.len()})) }
+                Out::Ok((got, _)) => { cx.outcome("inner-wrong"); cx.violate("inner-full-wrong-value", json!({"value": vdesc(i, &want), "start_offset": r, "observed": format!("{:?}", got)})) }
+                o => { cx.outcome("inner-fail"); cx.violate(&format!("inner-full-{}", o.class()), json!({"value": vdesc(i, &want), "start_offset": r, "observed": o.describe()})) }
             }
-            if i < 1 { cx.sample(json!({"type": cx.type_id, "value": format!("{:?}", want), "len": bytes.len(), "events": enc.events.len()})); }
         }
     }
+}
 
-    // ------------------------------------------------------------------ C07
+// ------------------------------------------------------------------ C02 + C03
 
-    /// Padding and byte counts, with every start-offset residue through the inner API.
-    pub fn c07(cx: &mut Cx) {
-        let ty = T::ty();
-        let vals = Self::domain(cx);
-        let nres = cx.tier.pick(64usize, 128);
-        for (i, v) in vals.iter().enumerate() {
-            let want = v.to_val();
-            // top-level byte counts
-            cx.evals += 1;
-            cx.case(hash64(&[cx.type_id.as_bytes(), format!("{:?}", want).as_bytes()]), true);
-            let enc = encode(&ty, &want, Self::type_name());
-            match Self::ser(v) {
-                Out::Ok((bytes, n)) => {
-                    if n != bytes.len() || n != enc.bytes.len() {
-                        cx.violate("serialize-count-mismatch", json!({"value": Self::vdesc(i, v), "returned": n, "sink_received": bytes.len(), "model": enc.bytes.len()}));
-                    }
-                    // consumption: full
-                    let mut ext = bytes.clone();
-                    ext.extend_from_slice(&[0x5A; 40]);
-                    match Self::full(&ext) {
-                        Out::Ok((_, pos)) if pos == bytes.len() => cx.outcome("full-consumed-exact"),
-                        Out::Ok((_, pos)) => cx.violate("full-consumes-wrong-count", json!({"value": Self::vdesc(i, v), "consumed": pos, "written": bytes.len()})),
-                        o => cx.violate(&format!("full-{}", o.class()), json!({"value": Self::vdesc(i, v), "observed": o.describe()})),
-                    }
-                    // consumption: eps (header check + inner on a SliceWithPos)
-                    let mut arena = Arena::new(ext.len() + 4096);
-                    let placed = arena.place(0, &ext);
-                    let r = guarded(|| -> Result<usize, String> {
-                        let mut b = SliceWithPos::new(placed);
-                        deser::check_header::<T>(&mut b).map_err(|e| err_kind(&e))?;
-                        let _x = T::_deserialize_eps_inner(&mut b).map_err(|e| err_kind(&e))?;
-                        Ok(b.pos)
-                    });
-                    match r {
-                        Ok(Ok(pos)) if pos == bytes.len() => cx.outcome("eps-consumed-exact"),
-                        Ok(Ok(pos)) => cx.violate("eps-consumes-wrong-count", json!({"value": Self::vdesc(i, v), "consumed": pos, "written": bytes.len()})),
-                        Ok(Err(e)) => cx.violate(&format!("eps-err:{}", e.split('(').next().unwrap()), json!({"value": Self::vdesc(i, v), "observed": e})),
-                        Err(p) => cx.violate(&format!("eps-panic:{}", panic_class(&p)), json!({"value": Self::vdesc(i, v), "observed": p})),
-                    }
-                }
-                o => { cx.violate(&format!("ser-{}", o.class()), json!({"value": Self::vdesc(i, v), "observed": o.describe()})); continue; }
+/// ε-copy round trip == original == full copy (C02); with `c03`, the span/allocation oracle.
+pub fn c02(t: &dyn TypeOps, cx: &mut Cx, c03: bool) {
+    let ty = t.ty();
+    let n = build(t, cx);
+    let mut arena = Arena::new(1 << 16);
+    for i in 0..n {
+        let want = t.val(i);
+        let enc = encode(&ty, &want, t.type_name());
+        cx.evals += 1;
+        let nblocks = enc.events.iter().filter(|e| matches!(e, Ev::Block { borrowed: true, .. })).count();
+        cx.case(case_hash(cx, &want), !c03 || nblocks > 0);
+        let (bytes, _) = match t.ser(i) {
+            Out::Ok(b) => b,
+            o => { cx.outcome(&format!("ser-{}", o.class())); cx.violate(&format!("ser-{}", o.class()), json!({"value": vdesc(i, &want), "observed": o.describe()})); continue; }
+        };
+        if bytes.len() + 256 > arena.cap() { arena = Arena::new(bytes.len() * 2 + 4096); }
+        let base = arena.base();
+        let placed = arena.place(0, &bytes);
+        let o = t.eps(placed);
+        cx.outcome(&format!("eps-{}", o.class()));
+        cx.transitions += enc.events.len() as u64;
+        let (got, spans) = match o {
+            Out::Ok(x) => x,
+            o => { cx.violate(&format!("eps-{}", o.class()), json!({"value": vdesc(i, &want), "observed": o.describe()})); continue; }
+        };
+        if !c03 {
+            if got != want {
+                cx.violate("eps-wrong-value", json!({"value": vdesc(i, &want), "expected": format!("{:?}", want), "observed": format!("{:?}", got)}));
             }
-            if i >= cx.tier.pick(3, 12) { continue; }
-            // inner API at every residue with a recording writer
-            for r in 0..nres {
+            match t.full(&bytes) {
+                Out::Ok((f, _)) if f == got => {}
+                o => cx.violate("eps-disagrees-with-full", json!({"value": vdesc(i, &want), "eps": format!("{:?}", got), "full": o.describe()})),
+            }
+            if i < 1 { cx.sample(json!({"type": cx.type_id, "value": format!("{:?}", want), "eps": format!("{:?}", got)})); }
+            continue;
+        }
+        // C03: spans against the model's borrowed blocks
+        let blocks: Vec<&Ev> = enc.events.iter().filter(|e| matches!(e, Ev::Block { borrowed: true, .. })).collect();
+        if blocks.len() != spans.len() {
+            cx.violate("span-count", json!({"value": vdesc(i, &want), "expected_blocks": blocks.len(), "observed_spans": spans.len()}));
+            continue;
+        }
+        for (b, s) in blocks.iter().zip(&spans) {
+            if let Ev::Block { off, len, elem_size, count, kind, .. } = b {
+                cx.transitions += 1;
+                let mut bad = vec![];
+                if s.kind != *kind { bad.push("kind"); }
+                if s.count != *count { bad.push("count"); }
+                if s.bytes != *len { bad.push("length"); }
+                if s.elem_size != *elem_size { bad.push("elem-size"); }
+                if s.addr == 0 { bad.push("null"); }
+                if s.elem_align > 0 && s.addr % s.elem_align != 0 { bad.push("misaligned"); }
+                if *len > 0 {
+                    if s.addr != base + off { bad.push("address"); }
+                    if s.addr < base || s.addr.saturating_add(s.bytes) > base + bytes.len() { bad.push("out-of-bounds"); }
+                }
+                if !bad.is_empty() {
+                    cx.violate(&format!("span-{}", bad.join("+")), json!({"value": vdesc(i, &want), "model_block": format!("{:?}", b), "span": format!("{:?}", s), "base": base}));
+                }
+            }
+        }
+        if i < 1 && !spans.is_empty() { cx.sample(json!({"type": cx.type_id, "value": format!("{:?}", want), "spans": spans.iter().map(|s| json!({"off": s.addr.wrapping_sub(base), "bytes": s.bytes, "count": s.count})).collect::<Vec<_>>() })); }
+        // allocation independence under scaling of the borrowed payload
+        if nblocks > 0 && i < cx.tier.pick(6, 40) {
+            let mut seen: Option<AllocSnap> = None;
+            for k in [1usize, 8, 64] {
+                let (sb, sval) = match t.ser_scaled(i, k) { Out::Ok(x) => x, _ => break };
+                let mut big = Arena::new(sb.len() + 4096);
+                let placed = big.place(0, &sb);
                 cx.evals += 1;
-                let mut buf: Vec<u8> = Vec::new();
-                let rec = guarded(|| {
-                    let mut w = RecWriter::new(&mut buf);
-                    w.write_all(&vec![0u8; r]).unwrap();
-                    let res = v._serialize_inner(&mut w);
-                    (res.map_err(|e| format!("{:?}", e)), w.aligns, w.blocks, w.inner.pos())
-                });
-                let (res, aligns, blocks, endpos) = match rec {
-                    Ok(x) => x,
-                    Err(p) => { cx.violate(&format!("inner-ser-panic:{}", panic_class(&p)), json!({"value": Self::vdesc(i, v), "start_offset": r, "observed": p})); break; }
-                };
-                if let Err(e) = res { cx.violate("inner-ser-err", json!({"value": Self::vdesc(i, v), "start_offset": r, "observed": e})); break; }
-                if endpos != buf.len() { cx.violate("writer-pos-mismatch", json!({"value": Self::vdesc(i, v), "start_offset": r, "pos": endpos, "len": buf.len()})); }
-                // model trace at the same start offset
-                let mut me = Encoded::default();
-                me.bytes = vec![0u8; r];
-                me.mask = vec![false; r];
-                encode_value(&ty, &want, &mut me, true);
-                cx.transitions += (aligns.len() + blocks.len()) as u64;
-                if !masked_eq(&buf, &me.bytes, &me.mask) {
-                    cx.violate("inner-bytes-differ-from-model", json!({"value": Self::vdesc(i, v), "start_offset": r, "impl": hex(&buf[r..]), "model": hex(&me.bytes[r..])}));
-                }
-                // per-alignment checks (the property, on the observed events)
-                for (before, unit, after) in &aligns {
-                    let mut bad = vec![];
-                    if *unit == 0 || !unit.is_power_of_two() { bad.push("unit-not-power-of-two"); }
-                    else {
-                        if after % unit != 0 { bad.push("block-offset-not-multiple-of-unit"); }
-                        if after - before >= *unit { bad.push("gap-not-minimal"); }
-                    }
-                    if buf[*before..*after].iter().any(|b| *b != 0) { bad.push("gap-not-zero"); }
-                    if !bad.is_empty() { cx.violate(&format!("pad-{}", bad.join("+")), json!({"value": Self::vdesc(i, v), "start_offset": r, "before": before, "after": after, "unit": unit})); }
-                }
-                for (pos, _len, unit, al, _sz) in &blocks {
-                    let mut bad = vec![];
-                    if *unit == 0 || !unit.is_power_of_two() { bad.push("unit-not-power-of-two"); }
-                    else {
-                        if unit < al { bad.push("unit-below-native-align"); }
-                        if pos % unit != 0 { bad.push("block-offset-not-multiple-of-unit"); }
-                    }
-                    if !bad.is_empty() { cx.violate(&format!("block-{}", bad.join("+")), json!({"value": Self::vdesc(i, v), "start_offset": r, "pos": pos, "unit": unit, "align_of": al})); }
-                }
-                // unit >= unit of every field: the model's documented unit is a lower bound
-                let mblocks: Vec<&Ev> = me.events.iter().filter(|e| matches!(e, Ev::Block { kind: BlockKind::Slice | BlockKind::One, .. })).collect();
-                if mblocks.len() == blocks.len() {
-                    for (mb, (pos, len, unit, _, _)) in mblocks.iter().zip(&blocks) {
-                        if let Ev::Block { off, len: ml, .. } = mb {
-                            if off != pos || ml != len { cx.violate("block-position-differs-from-model", json!({"value": Self::vdesc(i, v), "start_offset": r, "impl": [pos, len], "model": [off, ml], "unit": unit})); }
+                match t.eps_alloc(placed) {
+                    Out::Ok((d, val)) => {
+                        if val != sval { cx.violate("scaled-eps-wrong-value", json!({"value": vdesc(i, &want), "scale": k})); }
+                        let d = AllocSnap { frees: 0, ..d };
+                        match seen {
+                            None => seen = Some(d),
+                            Some(s0) if s0 == d => {}
+                            Some(s0) => { cx.violate("alloc-depends-on-borrowed-length", json!({"value": vdesc(i, &want), "scale": k, "alloc_k1": format!("{:?}", s0), "alloc_k": format!("{:?}", d)})); break; }
                         }
                     }
-                }
-                // deserializers consume exactly, at this offset
-                let rd = guarded(|| -> Result<(usize, usize), String> {
-                    let mut cur = Cursor::new(&buf[..]);
-                    let mut rdr = ReaderWithPos::new(&mut cur);
-                    let mut skip = vec![0u8; r];
-                    epserde::deser::ReadNoStd::read_exact(&mut rdr, &mut skip).map_err(|e| err_kind(&e))?;
-                    T::_deserialize_full_inner(&mut rdr).map_err(|e| err_kind(&e))?;
-                    let fpos = epserde::deser::ReadWithPos::pos(&rdr);
-                    let mut arena = Arena::new(buf.len() + 4096);
-                    let placed = arena.place(0, &buf);
-                    let mut sp = SliceWithPos { data: &placed[r..], pos: r };
-                    let _x = T::_deserialize_eps_inner(&mut sp).map_err(|e| format!("eps:{}", err_kind(&e)))?;
-                    Ok((fpos, sp.pos))
-                });
-                match rd {
-                    Ok(Ok((f, e))) if f == buf.len() && e == buf.len() => cx.outcome("inner-consumed-exact"),
-                    Ok(Ok((f, e))) => cx.violate("inner-consumes-wrong-count", json!({"value": Self::vdesc(i, v), "start_offset": r, "full": f, "eps": e, "written": buf.len()})),
-                    Ok(Err(e)) => cx.violate(&format!("inner-deser-err:{}", e.split('(').next().unwrap()), json!({"value": Self::vdesc(i, v), "start_offset": r, "observed": e})),
-                    Err(p) => cx.violate(&format!("inner-deser-panic:{}", panic_class(&p)), json!({"value": Self::vdesc(i, v), "start_offset": r, "observed": p})),
+                    _ => break, // failures are C02's business
                 }
             }
-            if i < 1 { cx.sample(json!({"type": cx.type_id, "value": format!("{:?}", want), "residues": nres})); }
         }
+    }
+}
+
+// ------------------------------------------------------------------ C06
+
+/// Bytes == reference encoder, header hash words == model recipe, golden data of the pinned build.
+pub fn c06(t: &dyn TypeOps, cx: &mut Cx) {
+    let ty = t.ty();
+    let n = build(t, cx);
+    let (rth, rah) = t.hashes();
+    cx.evals += 1;
+    if rth != type_hash(&ty) {
+        cx.violate("type-hash-differs-from-recipe", json!({"real": format!("{:#x}", rth), "model": format!("{:#x}", type_hash(&ty)), "ty": ty.show()}));
+    }
+    if rah != align_hash(&ty) {
+        cx.violate("align-hash-differs-from-recipe", json!({"real": format!("{:#x}", rah), "model": format!("{:#x}", align_hash(&ty)), "ty": ty.show()}));
+    }
+    for i in 0..n {
+        let want = t.val(i);
+        let enc = encode(&ty, &want, t.type_name());
+        cx.evals += 1;
+        cx.case(case_hash(cx, &want), true);
+        let (bytes, _) = match t.ser(i) {
+            Out::Ok(b) => b,
+            o => { cx.outcome(&format!("ser-{}", o.class())); cx.violate(&format!("ser-{}", o.class()), json!({"value": vdesc(i, &want), "observed": o.describe()})); continue; }
+        };
+        cx.transitions += enc.events.len() as u64;
+        if masked_eq(&bytes, &enc.bytes, &enc.mask) {
+            cx.outcome("bytes-equal");
+        } else {
+            cx.outcome("bytes-differ");
+            let first = bytes.iter().zip(&enc.bytes).zip(&enc.mask).position(|((a, b), m)| !*m && a != b).unwrap_or(bytes.len().min(enc.bytes.len()));
+            let region = if first < 8 { "magic" } else if first < 12 { "version" } else if first < 13 { "usize-size" } else if first < 21 { "type-hash" } else if first < 29 { "align-hash" } else if first < enc.header_len { "type-name" } else { "body" };
+            cx.violate(&format!("bytes-differ-in-{}", region), json!({"value": vdesc(i, &want), "first_diff": first, "impl_len": bytes.len(), "model_len": enc.bytes.len(),
+                "impl": hex(&bytes[enc.header_len.min(bytes.len())..]), "model": hex(&enc.bytes[enc.header_len..])}));
+        }
+        if i < 1 { cx.sample(json!({"type": cx.type_id, "value": format!("{:?}", want), "len": bytes.len(), "events": enc.events.len()})); }
+    }
+    c06_golden(t, cx, n, rth, rah);
+}
+
+/// Golden data of the pinned build: hashes and stored streams must keep their meaning.
+fn c06_golden(t: &dyn TypeOps, cx: &mut Cx, n: usize, rth: u64, rah: u64) {
+    let g = crate::corpus::golden();
+    let ty = t.ty();
+    match g.hashes.get(&cx.type_id) {
+        None => cx.count("types_without_golden_hash", 1),
+        Some((th, ah)) => {
+            cx.evals += 1;
+            cx.count("golden_hashes_compared", 1);
+            if *th != rth { cx.violate("type-hash-differs-from-pinned-build", json!({"pinned": format!("{:#x}", th), "current": format!("{:#x}", rth)})); }
+            if *ah != rah { cx.violate("align-hash-differs-from-pinned-build", json!({"pinned": format!("{:#x}", ah), "current": format!("{:#x}", rah)})); }
+        }
+    }
+    let Some(files) = g.corpus.get(&cx.type_id) else { cx.count("types_without_corpus", 1); return; };
+    let mut arena = Arena::new(1 << 16);
+    let vals: Vec<String> = (0..n).map(|i| format!("{:?}", t.val(i))).collect();
+    for (vs, bytes) in files {
+        let Some(i) = vals.iter().position(|v| v == vs) else { cx.count("corpus_value_not_in_domain", 1); continue; };
+        cx.evals += 1;
+        cx.count("corpus_files_checked", 1);
+        let want = t.val(i);
+        if bytes.len() + 64 > arena.cap() { arena = Arena::new(bytes.len() * 2); }
+        match t.full(bytes) {
+            Out::Ok((x, _)) if x == want => {}
+            o => cx.violate(&format!("corpus-full-{}", if matches!(o, Out::Ok(_)) { "wrong-value".into() } else { o.class() }), json!({"value": vdesc(i, &want), "observed": o.describe(), "file": hex(bytes)})),
+        }
+        let placed = arena.place(0, bytes);
+        match t.eps(placed) {
+            Out::Ok((x, _)) if x == want => {}
+            o => cx.violate(&format!("corpus-eps-{}", if matches!(o, Out::Ok(_)) { "wrong-value".into() } else { o.class() }), json!({"value": vdesc(i, &want), "observed": o.describe(), "file": hex(bytes)})),
+        }
+        let enc = encode(&ty, &want, t.type_name());
+        match t.ser(i) {
+            Out::Ok((b, _)) if b.len() == bytes.len() && (b == *bytes || masked_eq(&b, bytes, &enc.mask)) => {}
+            Out::Ok((b, _)) => cx.violate("corpus-reserialization-differs", json!({"value": vdesc(i, &want), "pinned": hex(bytes), "current": hex(&b)})),
+            o => cx.violate(&format!("corpus-ser-{}", o.class()), json!({"value": vdesc(i, &want), "observed": o.describe()})),
+        }
+    }
+}
+
+/// Emit golden lines (run against the pinned tree only).
+pub fn goldgen(t: &dyn TypeOps, cx: &mut Cx) {
+    let (th, ah) = t.hashes();
+    cx.notes.push(format!("HASH {} {:016x} {:016x}", cx.type_id, th, ah));
+    let n = build(t, cx);
+    let pick: Vec<usize> = if n <= 3 { (0..n).collect() } else { vec![0, n / 2, n - 1] };
+    for i in pick {
+        cx.evals += 1;
+        if let Out::Ok((b, _)) = t.ser(i) {
+            cx.notes.push(format!("CORPUS {}\t{}\t{:?}", cx.type_id, hex(&b), t.val(i)));
+        }
+    }
+    cx.case(0, true);
+    cx.case(1, true);
+}
+
+// ------------------------------------------------------------------ C07
+
+/// Padding and byte counts, with every start-offset residue through the inner API.
+pub fn c07(t: &dyn TypeOps, cx: &mut Cx) {
+    let ty = t.ty();
+    let n = build(t, cx);
+    let nres = cx.tier.pick(64usize, 128);
+    for i in 0..n {
+        let want = t.val(i);
+        cx.evals += 1;
+        cx.case(case_hash(cx, &want), true);
+        let enc = encode(&ty, &want, t.type_name());
+        match t.ser(i) {
+            Out::Ok((bytes, cnt)) => {
+                if cnt != bytes.len() || cnt != enc.bytes.len() {
+                    cx.violate("serialize-count-mismatch", json!({"value": vdesc(i, &want), "returned": cnt, "sink_received": bytes.len(), "model": enc.bytes.len()}));
+                }
+                let mut ext = bytes.clone();
+                ext.extend_from_slice(&[0x5A; 40]);
+                match t.full(&ext) {
+                    Out::Ok((_, pos)) if pos == bytes.len() => cx.outcome("full-consumed-exact"),
+                    Out::Ok((_, pos)) => cx.violate("full-consumes-wrong-count", json!({"value": vdesc(i, &want), "consumed": pos, "written": bytes.len()})),
+                    o => cx.violate(&format!("full-{}", o.class()), json!({"value": vdesc(i, &want), "observed": o.describe()})),
+                }
+                let mut arena = Arena::new(ext.len() + 4096);
+                let placed = arena.place(0, &ext);
+                match t.eps_consumed(placed) {
+                    Out::Ok(pos) if pos == bytes.len() => cx.outcome("eps-consumed-exact"),
+                    Out::Ok(pos) => cx.violate("eps-consumes-wrong-count", json!({"value": vdesc(i, &want), "consumed": pos, "written": bytes.len()})),
+                    o => cx.violate(&format!("eps-{}", o.class()), json!({"value": vdesc(i, &want), "observed": o.describe()})),
+                }
+            }
+            o => { cx.violate(&format!("ser-{}", o.class()), json!({"value": vdesc(i, &want), "observed": o.describe()})); continue; }
+        }
+        if i >= cx.tier.pick(3, 12) { continue; }
+        for r in 0..nres {
+            cx.evals += 1;
+            let s = match t.inner_ser(i, r) {
+                Out::Ok(s) => s,
+                o => { cx.violate(&format!("inner-ser-{}", o.class()), json!({"value": vdesc(i, &want), "start_offset": r, "observed": o.describe()})); break; }
+            };
+            let buf = &s.bytes;
+            if s.endpos != buf.len() { cx.violate("writer-pos-mismatch", json!({"value": vdesc(i, &want), "start_offset": r, "pos": s.endpos, "len": buf.len()})); }
+            let mut me = Encoded::default();
+            me.bytes = vec![0u8; r];
+            me.mask = vec![false; r];
+            encode_value(&ty, &want, &mut me, true);
+            cx.transitions += (s.aligns.len() + s.blocks.len()) as u64;
+            if !masked_eq(buf, &me.bytes, &me.mask) {
+                cx.violate("inner-bytes-differ-from-model", json!({"value": vdesc(i, &want), "start_offset": r, "impl": hex(&buf[r..]), "model": hex(&me.bytes[r..])}));
+            }
+            for (before, unit, after) in &s.aligns {
+                let mut bad = vec![];
+                if *unit == 0 || !unit.is_power_of_two() { bad.push("unit-not-power-of-two"); }
+                else {
+                    if after % unit != 0 { bad.push("block-offset-not-multiple-of-unit"); }
+                    if after - before >= *unit { bad.push("gap-not-minimal"); }
+                }
+                if buf[*before..*after].iter().any(|b| *b != 0) { bad.push("gap-not-zero"); }
+                if !bad.is_empty() { cx.violate(&format!("pad-{}", bad.join("+")), json!({"value": vdesc(i, &want), "start_offset": r, "before": before, "after": after, "unit": unit})); }
+            }
+            for (pos, _len, unit, al, _sz) in &s.blocks {
+                let mut bad = vec![];
+                if *unit == 0 || !unit.is_power_of_two() { bad.push("unit-not-power-of-two"); }
+                else {
+                    if unit < al { bad.push("unit-below-native-align"); }
+                    if pos % unit != 0 { bad.push("block-offset-not-multiple-of-unit"); }
+                }
+                if !bad.is_empty() { cx.violate(&format!("block-{}", bad.join("+")), json!({"value": vdesc(i, &want), "start_offset": r, "pos": pos, "unit": unit, "align_of": al})); }
+            }
+            let mblocks: Vec<&Ev> = me.events.iter().filter(|e| matches!(e, Ev::Block { .. })).collect();
+            if mblocks.len() == s.blocks.len() {
+                for (mb, (pos, len, unit, _, _)) in mblocks.iter().zip(&s.blocks) {
+                    if let Ev::Block { off, len: ml, .. } = mb {
+                        if off != pos || ml != len { cx.violate("block-position-differs-from-model", json!({"value": vdesc(i, &want), "start_offset": r, "impl": [pos, len], "model": [off, ml], "unit": unit})); }
+                    }
+                }
+            } else {
+                cx.violate("block-count-differs-from-model", json!({"value": vdesc(i, &want), "start_offset": r, "impl": s.blocks.len(), "model": mblocks.len()}));
+            }
+            // deserializers consume exactly, at this offset
+            let f = t.inner_full(buf, r);
+            let mut arena = Arena::new(buf.len() + 4096);
+            let placed = arena.place(0, buf);
+            let e = t.inner_eps(placed, r);
+            match (&f, &e) {
+                (Out::Ok((_, fp)), Out::Ok((_, ep))) if *fp == buf.len() && *ep == buf.len() => cx.outcome("inner-consumed-exact"),
+                (Out::Ok((_, fp)), Out::Ok((_, ep))) => cx.violate("inner-consumes-wrong-count", json!({"value": vdesc(i, &want), "start_offset": r, "full": fp, "eps": ep, "written": buf.len()})),
+                (Out::Ok(_), e) => cx.violate(&format!("inner-eps-{}", e.class()), json!({"value": vdesc(i, &want), "start_offset": r, "observed": e.describe()})),
+                (f, _) => cx.violate(&format!("inner-full-{}", f.class()), json!({"value": vdesc(i, &want), "start_offset": r, "observed": f.describe()})),
+            }
+        }
+        if i < 1 { cx.sample(json!({"type": cx.type_id, "value": format!("{:?}", want), "residues": nres})); }
     }
 }
